@@ -36,6 +36,7 @@ def make_spec(st, idx, tier):
     if st.sched.random() < 0.15:
         # a night that runs to the end: everything delivered, nothing lost -> 100 % reporting at the last poll
         spec["ops"] = [o for o in spec["ops"] if o["k"] != "lost"]
+    C.arrival_polls(st, spec)
     return spec
 
 
